@@ -610,6 +610,63 @@ func ruleR03_4(p *Program, r *Report) {
 		r.Undecided("R03.4", "anchor:step", "-", "decompressor.step exists", "not found")
 		return
 	}
+	// classify one leaf of a returned error; a call into a repository helper is classified by the
+	// helper's own returns (so extracting a few statements of step into a method changes nothing)
+	var classify func(leaf ssa.Value, depth int) string
+	classify = func(leaf ssa.Value, depth int) string {
+		switch {
+		case isSentinel(leaf, "io", "EOF"):
+			return ""
+		case isSentinel(leaf, "io", "ErrUnexpectedEOF"):
+			// only on the end-of-input-at-eof path
+			inst, _ := leaf.(ssa.Instruction)
+			if inst != nil {
+				for _, f := range dominatingFacts(inst) {
+					if f.Op == token.EQL && f.Y != nil {
+						for _, v := range []ssa.Value{f.X, f.Y} {
+							if g := globalLoad(v); g != nil && g.Name() == "errEndInput" {
+								return ""
+							}
+						}
+					}
+				}
+			}
+			return "io.ErrUnexpectedEOF is produced outside the err == errEndInput branch"
+		}
+		if mi, ok := leaf.(*ssa.MakeInterface); ok && isNamedType(mi.X.Type(), stdFlate, "CorruptInputError") {
+			return ""
+		}
+		var call *ssa.Call
+		idx := 0
+		if ex, ok := leaf.(*ssa.Extract); ok {
+			call, _ = ex.Tuple.(*ssa.Call)
+			idx = ex.Index
+		} else if c, ok := leaf.(*ssa.Call); ok {
+			call = c
+		}
+		if call != nil {
+			if d, _ := srcDirect(callInfo(call)); d {
+				return ""
+			}
+			if g := call.Common().StaticCallee(); g != nil && g.Blocks != nil && g != fn && depth < 3 && p.IsRepoFunc(g) {
+				for _, gb := range g.Blocks {
+					for _, gin := range gb.Instrs {
+						gret, ok := gin.(*ssa.Return)
+						if !ok || idx >= len(gret.Results) {
+							continue
+						}
+						for _, l2 := range eofLeaves(p, g, gret.Results[idx]) {
+							if w := classify(l2, depth+1); w != "" {
+								return "through " + shortFn(g) + ": " + w
+							}
+						}
+					}
+				}
+				return ""
+			}
+		}
+		return "can return " + describeValue(leaf) + ": not nil, io.EOF, io.ErrUnexpectedEOF, a CorruptInputError or a source error"
+	}
 	lab := newLabeler()
 	for _, b := range fn.Blocks {
 		for _, in := range b.Instrs {
@@ -621,38 +678,8 @@ func ruleR03_4(p *Program, r *Report) {
 			key := shortFn(fn) + "|" + lab.get("return "+retLabel(p, e))
 			why := ""
 			for _, leaf := range eofLeaves(p, fn, e) {
-				switch {
-				case isSentinel(leaf, "io", "EOF"):
-				case isSentinel(leaf, "io", "ErrUnexpectedEOF"):
-					// only on the end-of-input-at-eof path
-					okE := false
-					inst, _ := leaf.(ssa.Instruction)
-					if inst != nil {
-						for _, f := range dominatingFacts(inst) {
-							if f.Op == token.EQL && f.Y != nil {
-								for _, v := range []ssa.Value{f.X, f.Y} {
-									if g := globalLoad(v); g != nil && g.Name() == "errEndInput" {
-										okE = true
-									}
-								}
-							}
-						}
-					}
-					if !okE {
-						why = "io.ErrUnexpectedEOF is produced outside the err == errEndInput branch"
-					}
-				default:
-					if mi, ok := leaf.(*ssa.MakeInterface); ok && isNamedType(mi.X.Type(), stdFlate, "CorruptInputError") {
-						continue
-					}
-					if ex, ok := leaf.(*ssa.Extract); ok {
-						if c, ok := ex.Tuple.(*ssa.Call); ok {
-							if d, _ := srcDirect(callInfo(c)); d {
-								continue
-							}
-						}
-					}
-					why = "can return " + describeValue(leaf) + ": not nil, io.EOF, io.ErrUnexpectedEOF, a CorruptInputError or a source error"
+				if w := classify(leaf, 0); w != "" {
+					why = w
 				}
 			}
 			r.Check(why == "", "R03.4", key, p.InstrPos(ret), "step returns only nil, io.EOF, io.ErrUnexpectedEOF, CorruptInputError or the source's own error", why)
